@@ -12,7 +12,7 @@
    The string-level half - dotted rendering turns the component prefix order
    into "equal or starts with name + '.'" - is C14_render_prefix. *)
 From Coq Require Import List Bool NArith.
-From PTA Require Import Sx Names Graph Search Rule SpecRule Builder Layer Label NamesProofs SearchProofs RuleProofs RenameProofs LabelProofs.
+From PTA Require Import Sx Names Graph Search Rule SpecRule Builder Layer Label NamesProofs SearchProofs RuleProofs RenameProofs LabelProofs LabelRenameProofs.
 Import ListNotations.
 
 Theorem C14_rule_rename_invariant :
@@ -45,6 +45,31 @@ Theorem C14_render_prefix : forall a b : list str,
 Proof. exact render_prefix. Qed.
 Print Assumptions C14_render_prefix.
 
+(* plot labels: the label is "alias of the most specific aliased module + remaining components" - components only -
+   so under an injective renaming f of components (dot-free components stay dot-free) a module keeps the same alias
+   and its remaining components are renamed; a module below no aliased module keeps its (renamed) full name.
+   [rest_of r] is "" for the aliased module itself and "." + dotted r below it. *)
+Theorem C14_label_rename_invariant :
+  forall (f : str -> str), (forall x y, f x = f y -> x = y) -> (forall c, no_dot c -> no_dot (f c)) ->
+  forall (al : list (list str * str)) (m : list str) k a,
+  (forall ka, In ka al -> wf_comps (fst ka)) -> wf_comps m -> NoDup (map fst al) ->
+  In (k, a) al -> prefixb str_eqb k m = true ->
+  (forall k' a', In (k', a') al -> prefixb str_eqb k' m = true -> (length k' <= length k)%nat) ->
+  label (ralias al) (render m) = a ++ rest_of (skipn (length k) m) /\
+  label (ralias (rn_aliases f al)) (render (map f m)) = a ++ rest_of (map f (skipn (length k) m)).
+Proof. exact label_rename_aliased. Qed.
+Print Assumptions C14_label_rename_invariant.
+
+Theorem C14_label_rename_unaliased :
+  forall (f : str -> str), (forall x y, f x = f y -> x = y) -> (forall c, no_dot c -> no_dot (f c)) ->
+  forall (al : list (list str * str)) (m : list str),
+  (forall ka, In ka al -> wf_comps (fst ka)) -> wf_comps m ->
+  (forall ka, In ka al -> prefixb str_eqb (fst ka) m = false) ->
+  label (ralias al) (render m) = render m /\
+  label (ralias (rn_aliases f al)) (render (map f m)) = render (map f m).
+Proof. exact label_rename_unaliased. Qed.
+Print Assumptions C14_label_rename_unaliased.
+
 (* non-vacuity: components renamed 2 -> 20, 3 -> 203 ("a" -> "ab"-like collisions live only in strings) *)
 Open Scope N_scope.
 Example C14_example :
@@ -54,3 +79,12 @@ Example C14_example :
   verdict N.eqb (fun _ _ => false) (rn_graph N N f g) (rn_cfg N N f c) = Pass /\
   verdict N.eqb (fun _ _ => false) g c = Pass.
 Proof. split; vm_compute; reflexivity. Qed.
+
+(* labels: "a" -> "ab" makes pkg.a a string prefix of its sibling pkg.ab2... the alias still follows components *)
+Example C14_label_example :
+  let f := fun c : str => match c with [97] => [97; 98] | c => c end in     (* a -> ab *)
+  let al := [([[112]; [97]], [65])] in                                       (* alias p.a -> "A" *)
+  label (ralias al) (render [[112]; [97]; [120]]) = [65; 46; 120] /\
+  label (ralias (rn_aliases f al)) (render (map f [[112]; [97]; [120]])) = [65; 46; 120] /\
+  label (ralias (rn_aliases f al)) (render [[112]; [97; 98; 50]]) = render [[112]; [97; 98; 50]].
+Proof. repeat split; vm_compute; reflexivity. Qed.
